@@ -23,26 +23,26 @@ func (s *State) Clone() *State {
 
 // Ctx holds what is shared by all queries generated for one unit (function or lemma).
 type Ctx struct {
-	enc    *Enc
-	spec   *Spec
-	consts map[string]string // declared constants (name -> sort)
-	order  []string
-	n      int
-	unit   string
-	tree   *State // state that recursive spec functions read (entry state of the unit)
-	treeReads map[string]bool // components read by recursive spec definitions
-	inTree int
-	globalHook func(name string) (*Term, bool)
-	fuel       int             // 0 = default
-	unfoldOnly map[string]bool // nil = every recursive definition
-	unfoldDepth map[string]int // per definition depth (default 1, or cx.fuel)
-	epochs     map[string]*State // tree snapshots other than the entry tree, by epoch name
-	epochKeys  map[string]string
-	recReads   map[string]map[string]bool // per recursive definition: heap components it reads (transitively)
-	freshRefs  map[string]bool            // terms that denote references allocated after the unit's entry
-	frameInfo  map[string]frameInfo       // havoc constants: what they are known to agree with
-	curRec     []string
-	recCalls   map[string]map[string]bool
+	enc         *Enc
+	spec        *Spec
+	consts      map[string]string // declared constants (name -> sort)
+	order       []string
+	n           int
+	unit        string
+	tree        *State          // state that recursive spec functions read (entry state of the unit)
+	treeReads   map[string]bool // components read by recursive spec definitions
+	inTree      int
+	globalHook  func(name string) (*Term, bool)
+	fuel        int               // 0 = default
+	unfoldOnly  map[string]bool   // nil = every recursive definition
+	unfoldDepth map[string]int    // per definition depth (default 1, or cx.fuel)
+	epochs      map[string]*State // tree snapshots other than the entry tree, by epoch name
+	epochKeys   map[string]string
+	recReads    map[string]map[string]bool // per recursive definition: heap components it reads (transitively)
+	freshRefs   map[string]bool            // terms that denote references allocated after the unit's entry
+	frameInfo   map[string]frameInfo       // havoc constants: what they are known to agree with
+	curRec      []string
+	recCalls    map[string]map[string]bool
 }
 
 type frameInfo struct {
@@ -224,14 +224,14 @@ func (s *State) Get(c *Ctx, name string) *Term {
 
 // Env is an evaluation environment for spec expressions.
 type Env struct {
-	cx    *Ctx
-	st    *State
-	old   *State
-	vars  map[string]*Term
-	epoch string // (unused)
-	epochSt *State // tree snapshot recursive spec functions read (nil = the unit's entry tree)
-	loopEntry *State // state when the enclosing loop was entered (for atLoopEntry(e))
-	forceEpoch bool  // never identify a changed tree snapshot with the entry tree (lemma instances)
+	cx         *Ctx
+	st         *State
+	old        *State
+	vars       map[string]*Term
+	epoch      string // (unused)
+	epochSt    *State // tree snapshot recursive spec functions read (nil = the unit's entry tree)
+	loopEntry  *State // state when the enclosing loop was entered (for atLoopEntry(e))
+	forceEpoch bool   // never identify a changed tree snapshot with the entry tree (lemma instances)
 }
 
 func (e *Env) with(vars map[string]*Term) *Env {
